@@ -31,6 +31,8 @@ type netProto struct {
 	// protobuf-framed protocols
 	isPB  bool
 	giant func(in []byte) bool
+	// declShort: a SCALE byte string inside the (protobuf) message declares more than it carries
+	declShort func(in []byte) bool
 	inner func(k *kernel.K, valid []byte, f func(m mutant))
 }
 
@@ -183,27 +185,32 @@ func encodeGrandpaNet(m any) ([]byte, error) {
 	return cm.Encode()
 }
 
-func protoGiantBlockResponse(in []byte) bool {
+// scanBlockResponse walks the SCALE blobs inside a block response the way
+// protobufToBlockData consumes them (header; body = count + concatenated entries).
+func scanBlockResponse(in []byte) (giant, declShort bool) {
 	var m pb.BlockResponse
 	if proto.Unmarshal(in, &m) != nil {
-		return false
+		return
 	}
 	for _, b := range m.Blocks {
-		if b.Header != nil && walk(b.Header, reflect.TypeOf(types.Header{}), reflect.Value{}).giant {
-			return true
+		if b.Header != nil {
+			w := walk(b.Header, reflect.TypeOf(types.Header{}), reflect.Value{})
+			giant, declShort = giant || w.giant, declShort || w.declaredShort
 		}
 		if b.Body != nil {
 			enc := cCanonical(uint64(len(b.Body)))
 			for _, e := range b.Body {
 				enc = append(enc, e...)
 			}
-			if walk(enc, reflect.TypeOf([][]byte{}), reflect.Value{}).giant {
-				return true
-			}
+			w := walk(enc, reflect.TypeOf([][]byte{}), reflect.Value{})
+			giant, declShort = giant || w.giant, declShort || w.declaredShort
 		}
 	}
-	return false
+	return
 }
+
+func protoGiantBlockResponse(in []byte) bool     { g, _ := scanBlockResponse(in); return g }
+func protoDeclShortBlockResponse(in []byte) bool { _, d := scanBlockResponse(in); return d }
 
 // innerBlockResponse: the peer's protobuf is well formed, the SCALE blobs
 // inside it (header, body extrinsics, justification flags) are corrupted.
@@ -302,7 +309,7 @@ var netProtos = []netProto{
 			err := m.Decode(in)
 			return m, err
 		},
-		encode: encodeMsg, giant: protoGiantBlockResponse, inner: innerBlockResponse},
+		encode: encodeMsg, giant: protoGiantBlockResponse, declShort: protoDeclShortBlockResponse, inner: innerBlockResponse},
 	{name: "grandpa",
 		build: func(k *kernel.K, l string) []byte {
 			_, m := grandpaMsgOf(k, l)
@@ -472,7 +479,12 @@ func (c *ctx) checkNet(p *netProto, m mutant) bool {
 		return false
 	}
 	if excess > 0 {
-		c.report("alloc", "alloc-exceeds-linear-bound:"+p.name, "%s: %s %s: input %s (%d bytes): decoding allocated %d bytes, bound 256*len+128KiB = %d (err=%v)",
+		cls := "alloc-exceeds-linear-bound:" + p.name
+		if p.typ != nil && walk(m.data, p.typ, p.tmpl).declaredShort || p.declShort != nil && p.declShort(m.data) {
+			// K2: pkg/scale decodeBytes makes the declared length of a byte string before reading
+			cls = "alloc-byte-string-declared-length-preallocated:" + p.name
+		}
+		c.report("alloc", cls, "%s: %s %s: input %s (%d bytes): decoding allocated %d bytes, bound 256*len+128KiB = %d (err=%v)",
 			p.name, m.kind, m.detail, hx(m.data), len(m.data), exact, 256*len(m.data)+allocFloor, err)
 	}
 	if err != nil {
